@@ -55,10 +55,19 @@ def gen_stream(rng, tid, scope):
             anchor = evs[len(evs) - 1 - d][0] if d > 0 else clock
             lo = max(1000, min(anchor, clock))
             inside = []
+            future = scope != "fail" and rng.random() < 0.25
             for _ in range(nin):
-                c = rng.randint(lo, clock) if rng.random() < 0.8 else rng.choice([e[0] for e in evs[max(1, len(evs) - 1 - d):]] + [lo])
+                if future:
+                    # region not displaced into the past at all: every clock is
+                    # later than what precedes it, only the inside is unordered
+                    c = clock + rng.randint(1, 40)
+                else:
+                    c = rng.randint(lo, clock) if rng.random() < 0.8 else rng.choice([e[0] for e in evs[max(1, len(evs) - 1 - d):]] + [lo])
                 inside.append(body(c))
-            if rng.random() < 0.5:
+            if future and inside:
+                inside[0][0] = min(e[0] for e in inside)     # first event carries the lowest clock
+                clock = max(e[0] for e in inside)
+            elif rng.random() < 0.5:
                 inside.sort(key=lambda e: e[0])   # the doc says they must be sorted; also try unsorted
             evs.extend(inside)
             clock += rng.choice([0, 1, 3])
